@@ -33,6 +33,12 @@ type bufCtx struct {
 	res      bool // translating in the res shape
 	void     bool
 	wrote    bool // heap or header changed somewhere: the method is not read-only
+	// transfer functions (xfer.go): Write, Read
+	xfer     bool
+	slices   map[types.Object]string // caller's slices that are only read: Go variable -> Lean list
+	outSlice types.Object            // the caller's slice that is written (its current value is en.lv)
+	inFor    int                     // depth of `for` bodies being translated
+	outer    map[types.Object]bool   // variables declared outside the innermost loop
 }
 
 type needRes struct{ why string }
@@ -93,6 +99,11 @@ func bufName(obj types.Object) (string, bool) {
 func (b *body) bufExpr(e ast.Expr, en env, bs *binds) (string, ty, bool) {
 	t := b.t
 	intT := ty{cInt, "tI64", "i64:int"}
+	if b.bm.xfer {
+		if s, st, ok := b.sliceExpr(e, en, bs); ok {
+			return s, st, true
+		}
+	}
 	switch x := e.(type) {
 	case *ast.SelectorExpr:
 		if b.isBufExpr(x.X) {
@@ -259,9 +270,17 @@ func (b *body) bufStmt(s ast.Stmt, tail []ast.Stmt, rest [][]ast.Stmt, en env, i
 		}
 		return out
 	}
+	if b.bm.xfer {
+		if out, ok := b.xferStmt(s, tail, rest, en, ind); ok {
+			return out, true
+		}
+	}
 	switch x := s.(type) {
 	case *ast.ReturnStmt:
 		var bs binds
+		if b.bm.inFor > 0 {
+			fail("return inside a loop body")
+		}
 		switch len(x.Results) {
 		case 0:
 			return ind + fmt.Sprintf("Res.ok %s (%s, ())", en.hv, en.bv), true
